@@ -116,6 +116,26 @@ for l in range(0, 6):
       f"VecErrorQueue holding {l} arbitrary errors: one arbitrary push/pop/clear vs the FIFO specification",
       f"length {l}, all error contents, all operations", cap_s=200, mem_gb=2, unwind=8)
 
+# ---------------------------------------------------------------------------- C13
+for ql in (0, 1, 2):
+    H(f"c13_q_push_error_q{ql}", "C13", f"c13::push_error::<{ql}, _>", f"Device::handle_error on the documented wiring "
+      f"(-> push_error) from an arbitrary device with {ql} of 2 queue slots used, arbitrary error (custom any i16 with/"
+      f"without extended text, standard): ESR |= class bit, exactly one item appended (-350 marker when full), nothing "
+      f"else changes", "all register states, all error numbers", cap_s=200, mem_gb=2, unwind=12, sample=(ql == 1))
+for ql in (0, 1, 2, 3):
+    H(f"c13_q_next_q{ql}", "C13", f"c13::next::<{ql}, _>", f"SYSTem:ERRor[:NEXT]? called directly with {ql} queued custom "
+      f"errors of arbitrary number: response decodes (independent decoder) to the oldest item, exactly it is removed; "
+      f"empty -> 0,\"No error\"", "all error numbers, all register states; queue length concrete", cap_s=600, mem_gb=4,
+      unwind=20)
+    H(f"c13_q_count_q{ql}", "C13", f"c13::count::<{ql}, _>", f"SYSTem:ERRor:COUNt? with {ql} queued errors: answers "
+      f"{ql}, changes nothing", "all error numbers, all register states", cap_s=300, mem_gb=3, unwind=12)
+for ql in (0, 1, 2):
+    H(f"c13_q_all_q{ql}", "C13", f"c13::all::<{ql}, _>", f"SYSTem:ERRor:ALL? with {ql} queued errors: all items in order, "
+      f"queue emptied; empty -> 0,\"No error\"", "all error numbers; queue length concrete", cap_s=900, mem_gb=5,
+      unwind=12)
+H("c13_ta_all_q3", "C13", "c13::all::<3, _>", "SYSTem:ERRor:ALL? with 3 queued errors", "error numbers -999..-100", cap_s=3600,
+  mem_gb=8, unwind=20)
+
 # ---------------------------------------------------------------------------- C14
 H("c14_q_custom_mask", "C14", "c14::custom_mask", "Error::custom(c,_).esr_mask() and ErrorCode::Custom(c,_).esr_mask() "
   "== IEEE 488.2 class table, get_code()==c", "all 65536 error numbers", cap_s=120, mem_gb=2, sample=True)
@@ -135,7 +155,7 @@ for ques in ("false", "true"):
       f"EVENt?/CONDition?/ENABle[?]/NTRansition[?]/PTRansition[?] of the {nm.upper()} set and STATus:PRESet called "
       f"directly on an arbitrary device: response value (bit 15 clear), read-and-clear, write-read-back, frame conditions",
       "all register states of both sets, ESR/ESE/SRE, all u16 parameters, missing / out-of-range parameter",
-      cap_s=400, mem_gb=4, stubset="nextdata", unwind=12, sample=True)
+      cap_s=600, mem_gb=4, stubset="nextdata", unwind=12)
 
 # ---------------------------------------------------------------------------- C16
 for ql in (0, 1):
@@ -173,6 +193,32 @@ for t in ("i32", "u8", "f32", "f64"):
       sample=(t == "f32"))
 H("c17_q_resolve_time", "C17", "c17::resolve_time", "NumericValue<uom Time(f32)>: Value/MAX/MIN against quantity bounds",
   "all f32 values", cap_s=200, mem_gb=2)
+
+# ---------------------------------------------------------------------------- C18
+QTYS = ["Potential", "Current", "Power", "Energy", "Charge", "Capacitance", "Inductance", "Resistance", "Conductance",
+        "Frequency", "Time", "Angle", "Ratio", "Temperature"]
+for q in QTYS:
+    lens = [(6, "q", 900), (12, "ta", 3600)]
+    for L, tier, cap in lens:
+        H(f"c18_{tier}_suffix_{q.lower()}_{L}", "C18", f"c18::suffix::<c18::{q}, {L}, _>",
+          f"{q} <- (1.5, suffix of 1..{L} symbolic bytes): accepted => the suffix reads as [SCPI multiplier]"
+          f"[SCPI unit of the quantity] and the value is 1.5 scaled accordingly (M = milli except MHZ/MOHM); every "
+          f"suffix the library documents is accepted in any letter case; otherwise an error",
+          f"suffix <= {L} bytes over the suffix alphabet; number fixed to 1.5",
+          cap_s=cap, mem_gb=4, stubset="float", unwind=14, sample=(q == "Energy" and L == 6))
+    H(f"c18_ta_scale_{q.lower()}", "C18", f"c18::scale::<c18::{q}, _>",
+      f"{q}: for each suffix the library documents (concrete text) and EVERY moderate f32 the value is the number scaled "
+      f"by the suffix's SCPI multiplier and unit (relative tolerance 2e-6)", "number any f32 with |v| in [1e-15,1e15] or 0; "
+      "documented suffixes", cap_s=3600, mem_gb=4, stubset="float", unwind=14)
+    H(f"c18_q_bare_{q.lower()}", "C18", f"c18::bare_and_other::<c18::{q}, _>",
+      f"{q}: a bare number is taken in the base unit; character/string/block/expression/non-decimal elements are rejected",
+      "number any moderate f32; 3 symbolic payload bytes", cap_s=300, mem_gb=3, stubset="float", unwind=8)
+H("c18_q_amplitude_5", "C18", "c18::amplitude::<5, _>", "Amplitude<ElectricPotential>: PK / PP / RMS tails (any case) "
+  "classify Peak / PeakToPeak / Rms with the remaining unit converted as usual and the number unaltered",
+  "suffix <= 5 alphanumeric bytes; number fixed to 1.5", cap_s=900, mem_gb=5, stubset="float", unwind=9)
+H("c18_q_decibel_4", "C18", "c18::decibel::<4, _>", "Db<f32, ElectricPotential>: DBV/DBMV/DBUV -> Logarithmic(number "
+  "unaltered, 1 V/mV/uV), other suffixes -> Linear(plain conversion) or error, bare number -> None(number)",
+  "suffix <= 4 alphanumeric bytes; number fixed to 1.5", cap_s=900, mem_gb=5, stubset="float", unwind=8)
 
 # ---------------------------------------------------------------------------- C20
 ENUMS = {"E1": "BINary|REAL|ASCii1|ASCii2|L125", "E2": "VOLTage|CURRent", "E3": "ALPHa(u8)|BETA3(u16)|GAMMa",
@@ -312,6 +358,43 @@ PROPS["C20"] = {
                   "formatter, the real lexer and the derived TryFrom.",
     "level_note": "Trusted: Kani/CBMC/CaDiCaL; reference matcher (oracles/mnemonic.rs); the family of definitions is the "
                   "bound on 'programs'.",
+}
+
+PROPS["C13"] = {
+    "bounds": "one step from an arbitrary documented-wiring device: handle_error with 0..2 of 2 slots used; SYST:ERR? / "
+              ":COUN? with 0..3 items, :ALL? with 0..2 (3 attempted in thorough); *ESR? (c16_q_esr); *OPC (c16_q_opc_*); "
+              "error numbers unrestricted",
+    "outside": "the wiring run -> handle_error (exactly once, with exactly the returned error) is C05's token-level "
+               "obligation; queued items are custom errors with a fixed message text (formatting of arbitrary Error items "
+               "is C09's subject); queues longer than 3",
+    "assumptions": ["device wired as scpi-contrib/examples/minimal_scpi.rs documents",
+                    "a message that succeeds runs only handlers: the frame conditions of the contrib handlers (C15, C16) "
+                    "show they neither queue nor flag anything except *OPC"],
+    "level_text": "Bounded model checking as inductive steps from an arbitrary device: the error-hook step (ESR class bit + "
+                  "exactly one queue append) and each error-queue query (real handlers through the public Command trait; "
+                  "response bytes decoded by an independent code,\"message\" decoder; post-state compared item by item).",
+    "level_note": "Trusted: Kani/CBMC/CaDiCaL; ESR class table; the decoder in checks/c13.rs; queue length concrete per "
+                  "instance.",
+}
+
+PROPS["C18"] = {
+    "bounds": {"quick": "all 14 quantities; suffix 1..6 symbolic bytes (covers every documented suffix) "
+                        "with the number fixed to 1.5 (which unit a suffix selects); bare numbers: "
+                        "any f32 with |v| in [1e-15,1e15] or 0",
+               "thorough": "suffix 1..12 bytes, and per documented suffix every moderate f32 (scaling arithmetic), each "
+                           "attempted under a 1 h cap and reported as not reached otherwise"},
+    "outside": "scaling of numbers other than 1.5 by a suffixed unit is uom's linear arithmetic: measured - the f32-vs-"
+               "f64 tolerance query does not finish in 10 min even for the two ratio suffixes, so it is an attempt in the "
+               "thorough tier only; the literal -> f32 step (lexical-core, stubbed); numbers outside 1e-15..1e15 (f32 overflow/underflow of the "
+               "scaled value); the magnitude of ANN (SCPI does not fix the year); decibel/amplitude wrappers of quantities "
+               "other than electric potential",
+    "assumptions": ["lexical_core::parse::<f32> returns the correctly rounded value of the literal (contract stub)",
+                    "scaling is compared with a relative tolerance of 2e-6 (uom computes in f32)"],
+    "level_text": "Bounded model checking against an independent transcription of SCPI-99 tables 7-1/7-2: suffix bytes, "
+                  "suffix length and the number are symbolic, so every case variant and every near miss of every suffix is "
+                  "inside one query per quantity; accepted => SCPI reading and scaled value, documented => accepted.",
+    "level_note": "Trusted: Kani/CBMC/CaDiCaL incl. CBMC's IEEE-754 arithmetic; oracles/units.rs (unit-tested at setup); "
+                  "uom's own arithmetic is part of the code under test.",
 }
 
 # properties whose check is still being built (kept current as the work proceeds)
